@@ -162,6 +162,47 @@ pub fn k6() -> Vec<u8> {
     serialize(&all).0
 }
 
+/// K7: several runs inside ONE track fragment, each with another set of per-sample columns (all carry sizes, so all
+/// samples are readable), a second track fragment of the same track in the same moof, and a second moof whose traf
+/// repeats tfdt.  "Several boxes of a kind where a reader may expect one."
+pub fn k7() -> Vec<u8> {
+    let m = LFragMovie { movie_ts: 1000, tracks: vec![LFragTrack { id: 1, codec: Codec::Avc, timescale: 12800, trex_default_duration: 512 }], fragments: vec![], mehd: None, large_moof: false, offsets_only: false };
+    let build = |moof_len: i32| {
+        let mut all = init_nodes(&m);
+        // (durations, flags, cts) per run; sizes always present
+        let shapes: [(bool, bool, bool); 5] = [(true, false, false), (false, false, false), (true, true, true), (false, false, true), (false, true, false)];
+        let mut runs = vec![];
+        for (i, (d, f, c)) in shapes.iter().enumerate() {
+            let tr = Trun {
+                version: (i % 2) as u8,
+                sample_count: 2,
+                data_offset: Some(moof_len + 8 + 6 * i as i32),
+                first_sample_flags: if *f { None } else { Some(0x0200_0000) },
+                durations: if *d { Some(vec![500, 524]) } else { None },
+                sizes: Some(vec![2, 4]),
+                flags_: if *f { Some(vec![0x0200_0000, 0x0101_0000]) } else { None },
+                cts: if *c { Some(vec![0, 256]) } else { None },
+            };
+            runs.push(trun(&tr));
+        }
+        let th = Tfhd { version: 0, extra_flags: 0x020000, track_id: 1, base_data_offset: None, sample_description_index: None, default_sample_duration: Some(512), default_sample_size: None, default_sample_flags: Some(0x0101_0000) };
+        let mut t1 = vec![tfhd(&th), tfdt(1, 0)];
+        t1.extend(runs.iter().cloned());
+        let mut t2 = vec![tfhd(&th), tfdt(0, 5120)];
+        t2.extend(runs.iter().rev().take(2).cloned());
+        all.push(Node::kids(b"moof", vec![mfhd(1), Node::kids(b"traf", t1), Node::kids(b"traf", t2)]));
+        all.push(Node::leaf(b"mdat", (0..64u8).map(|i| i.wrapping_mul(5).wrapping_add(3)).collect()));
+        let mut t3 = vec![tfhd(&th), tfdt(0, 9000), tfdt(1, 9000)];
+        t3.push(runs[0].clone());
+        all.push(Node::kids(b"moof", vec![mfhd(2), mfhd(3), Node::kids(b"traf", t3)]));
+        all.push(Node::leaf(b"mdat", vec![9; 700]));
+        all
+    };
+    let probe = build(0);
+    let moof_len = serialize(&[probe.iter().find(|n| &n.cc == b"moof").unwrap().clone()]).0.len() as i32;
+    serialize(&build(moof_len)).0
+}
+
 pub fn baselines(tier: Tier) -> Vec<Baseline> {
     let th = tier == Tier::Thorough;
     let (i5, s5) = k5();
@@ -172,6 +213,7 @@ pub fn baselines(tier: Tier) -> Vec<Baseline> {
         Baseline { name: "K4:fragmented,emsg,2moof-x-2traf".into(), bytes: k4(), init: None, pairs: th },
         Baseline { name: "K5:media-segment-against-init".into(), bytes: s5, init: Some(i5), pairs: th },
         Baseline { name: "K6:every-trun-column-shape,full-tfhd".into(), bytes: k6(), init: None, pairs: th },
+        Baseline { name: "K7:several-truns-per-traf,several-trafs-per-track,repeated-tfdt-mfhd".into(), bytes: k7(), init: None, pairs: false },
     ]
 }
 
@@ -259,6 +301,74 @@ pub fn cut_last_box_variants() -> Vec<(String, Vec<u8>, usize)> {
         out.push((format!("moov last, last box of the file = {}", name), bytes, moov_start));
     }
     out
+}
+
+/// Fragmented cut files whose fragments differ in where durations come from (movie default / fragment default /
+/// per sample) and in their base-offset forms: (name, media or whole stream, init segment when delivered separately).
+pub fn cut_fragmented_mixed() -> Vec<(String, Vec<u8>, Option<Vec<u8>>)> {
+    use crate::props::c09::{all_opts, mk_run};
+    let opts = all_opts();
+    let pick = |fdd: bool, psd: bool, before: bool| *opts.iter().find(|o| o.fdd == fdd && o.psd == psd && o.before == before && o.cts.is_none() && o.tfdt_v == 1 && o.base_time == 5).unwrap();
+    let a = pick(false, false, false); // movie-level default
+    let b = pick(true, false, false); // fragment default
+    let c = pick(false, true, true); // per-sample durations, data before the moof
+    let mut out = vec![];
+    for (name, seq) in [("movie-default,fragment-default", vec![a, b]), ("fragment-default,movie-default", vec![b, a]), ("movie-default,per-sample,fragment-default", vec![a, c, b])] {
+        let m = LFragMovie {
+            movie_ts: 1000,
+            tracks: vec![LFragTrack { id: 1, codec: Codec::Avc, timescale: 12800, trex_default_duration: 9 }],
+            fragments: seq.iter().enumerate().map(|(i, o)| vec![mk_run(1, o, 2, i as u32)]).collect(),
+            mehd: None,
+            large_moof: false,
+            offsets_only: false,
+        };
+        let init = init_nodes(&m);
+        let (media, _) = media_nodes(&m);
+        let mut all = init.clone();
+        all.extend(media.iter().cloned());
+        out.push((format!("fragmented, durations from {} (one stream)", name), serialize(&all).0, None));
+        out.push((format!("fragmented, durations from {} (segment against init)", name), serialize(&media).0, Some(serialize(&init).0)));
+    }
+    out
+}
+
+/// A movie-header-first file with an open-ended media data box and samples of 100 B, 1.5 MiB, 70 KiB and 10 B, with the
+/// cut positions worth exploring: the whole header region, and around every power of two, every multiple of 64 KiB
+/// near a sample edge, 1 MiB past the start of the large sample, and every sample boundary.
+pub fn cut_large_sample() -> (String, Vec<u8>, Vec<usize>) {
+    let sizes = [100u32, 3 << 19, 70 << 10, 10];
+    let samples: Vec<LSample> = sizes.iter().enumerate().map(|(i, s)| LSample { size: *s, delta: 10 + i as u32, cts: 0, sync: i == 0 }).collect();
+    let t = LTrack::simple(1, Codec::Avc, 1000, samples, vec![1, 2, 1]);
+    let mut m = LMovie::new(1000, vec![t]);
+    m.mdat_open_ended = true;
+    let (bytes, payload) = encode(&m);
+    let n = bytes.len();
+    let mut cuts: Vec<usize> = (0..(payload as usize + 300).min(n)).collect();
+    let mut edges = vec![payload as usize + 3];
+    for s in sizes.iter() {
+        let e = *edges.last().unwrap() + *s as usize;
+        edges.push(e);
+    }
+    let mut marks: Vec<usize> = edges.clone();
+    for j in 10..=21 {
+        marks.push(1usize << j);
+    }
+    let big = edges[1];
+    for k in [1usize << 16, 1 << 20, (1 << 20) + (1 << 16), 3 << 19] {
+        marks.push(big + k);
+    }
+    marks.push(n);
+    for mk in marks {
+        for d in -3i64..=3 {
+            let c = mk as i64 + d;
+            if c >= 0 && (c as usize) < n {
+                cuts.push(c as usize);
+            }
+        }
+    }
+    cuts.sort();
+    cuts.dedup();
+    ("moov first, open-ended mdat, samples of 100 B / 1.5 MiB / 70 KiB / 10 B (selected cuts)".into(), bytes, cuts)
 }
 
 /// Extra files for the fault sweep of C10: (name, bytes).
